@@ -13,6 +13,13 @@
      Stop, Serve-returning, OnStartupComplete and event-hook emission is a labelled event;
    * the wait group shared along an instance lineage is a counter per lineage root.
 
+   Besides the operation-level model there are (i) Instance.Stop / Instance.Restart with the
+   servers' stop errors written out ([stop_inst_e], [restart_body_e]: a drain timeout is logged,
+   Stop returns nil), proved equal to what [step] runs, and (ii) a small-step interleaving model
+   of allShutdownCallbacks against concurrent Instance.Stop over the shared backing array of the
+   instance list ([conc_step]: lock acquisition, one loop iteration, the release and a Stop's
+   locked splice are the atomic steps).
+
    A history is a list of operations applied to the process state; [run] yields one record
    (operation, events, result) per operation.  Goroutines started by startServers (Serve)
    are asynchronous in the code: the model emits their events at the earliest possible point
@@ -35,8 +42,11 @@ Definition kind_eqb (a b : kind) : bool :=
 Record cb := mkCb { cb_id : nat; cb_fail : bool }.
 
 (* sv_file: 0 = the listener has no File() (not handed over on reload), 1 = File() works,
-   2 = File() returns an error (the reload fails while taking the listener over) *)
-Record srvspec := mkSrv { sv_addr : nat; sv_graceful : bool; sv_file : nat; sv_listen_fail : bool }.
+   2 = File() returns an error (the reload fails while taking the listener over);
+   sv_stop_err: GracefulServer.Stop returns an error (httpserver: `context deadline exceeded` when
+   a connection outlives the graceful timeout) — Instance.Stop logs it and goes on *)
+Record srvspec := mkSrv { sv_addr : nat; sv_graceful : bool; sv_file : nat; sv_listen_fail : bool;
+                          sv_stop_err : bool }.
 
 Record config := mkCfg {
   c_parse_fail : bool;   (* loadServerBlocks fails: no context is created *)
@@ -44,7 +54,16 @@ Record config := mkCfg {
   c_make_fail : bool;    (* Context.MakeServers returns an error *)
   c_first : list cb; c_startup : list cb; c_restart : list cb;
   c_rfailed : list cb; c_shutdown : list cb; c_final : list cb;
-  c_servers : list srvspec }.
+  c_servers : list srvspec;
+  c_setup_panic : bool   (* a directive's setup function panics *) }.
+
+(* the directives of the configuration cannot be executed: a setup function returns an error
+   or panics.  Instance.Restart recovers the panic and fails the restart with an error;
+   casket.Start does not recover: the panic reaches the caller, after the deferred clean-up of
+   startWithListenerFds (keyed on its [succeeded] flag) has taken the instance out of the list *)
+Definition setup_breaks (c : config) : bool := c_setup_fail c || c_setup_panic c.
+Definition start_panics (c : config) : bool :=
+  negb (c_parse_fail c) && negb (c_setup_fail c) && c_setup_panic c.
 
 Definition cbs_of (k : kind) (c : config) : list cb :=
   match k with
@@ -82,6 +101,7 @@ Inductive op :=
 
 Inductive result :=
 | RInst (ok : bool) (id : nat)      (* Start/Restart: no error?, instance returned (0 for a failed Start) *)
+| RPanic                            (* casket.Start: a plugin's panic reached the caller *)
 | RNum (n : nat)                    (* number of callback errors / exit code *)
 | RBool (b : bool)
 | RUnit.
@@ -185,13 +205,16 @@ Fixpoint spawn (i root : nat) (saved : list (nat * srvspec)) (w : nat -> nat) (s
 
 (* ------------------------------------------------------------------ startWithListenerFds *)
 (* the events of startWithListenerFds for instance number i, whether it succeeded, inst.servers.
-   [restart] = (restartFds != nil).  The instance is appended to [instances] first and removed
+   [restart] = (restartFds != nil): casket.Start passes nil; Instance.Restart passes a map made
+   with make() BEFORE its loop over the old servers, which is therefore non-nil also when the
+   old instance has no server at all, only non-graceful ones, or listeners without a file
+   descriptor (an empty map: every new server listens afresh, but it is still a reload).  The instance is appended to [instances] first and removed
    again by the deferred function on error; no operation of a sequential history observes the
    list in between, so the model appends on success only. *)
 Definition start_plan (c : config) (i : nat) (restart : bool) (old : list (nat * srvspec)) (oi : nat)
   : list event * bool * list (nat * srvspec) :=
   if c_parse_fail c then ([], false, []) else
-  if c_setup_fail c then ([ENew i], false, []) else
+  if setup_breaks c then ([ENew i], false, []) else
   if c_make_fail c then ([ENew i; EMake i], false, []) else
   let '(e1, ok1) := if restart then ([], true) else run_stop KFirst i (c_first c) in
   if negb ok1 then (ENew i :: EMake i :: e1, false, []) else
@@ -261,7 +284,7 @@ Definition do_start (c : config) (s : state) : state * list event * result :=
   let i := next s in
   let '(ev, ok, saved) := start_plan c i false [] 0 in
   if ok then (commit (mkInst i i c saved) (next_after c i) s, ev ++ [EHook HInstanceStartup i], RInst true i)
-  else (set_next s (next_after c i), ev, RInst false 0).
+  else (set_next s (next_after c i), ev, if start_panics c then RPanic else RInst false 0).
 
 (* Instance.Restart between i.wg.Add(1) and the deferred i.wg.Done() *)
 Definition restart_body (o : inst) (c : config) (s : state) : state * list event * result :=
@@ -296,6 +319,139 @@ Definition shutdown_errs (o : inst) : nat := nfail (c_shutdown (i_cfg o)) + nfai
 (* allShutdownCallbacks *)
 Definition all_shutdown (l : list inst) : list event := flat_map shutdown_cbs l.
 Definition all_errs (l : list inst) : nat := fold_right (fun o n => shutdown_errs o + n) 0 l.
+
+(* ------------------------------------------------------------------ Stop / Restart with stop errors *)
+(* Instance.Stop with the servers' stop errors written out: an error returned by a
+   GracefulServer.Stop is logged ([EStop] is followed by the next server all the same) and
+   Instance.Stop returns nil; the last component is the error Instance.Stop returns *)
+Fixpoint stop_servers_e (i : nat) (srv : list (nat * srvspec)) (w : nat -> nat) (sv : list (nat * nat * nat))
+  : (nat -> nat) * list (nat * nat * nat) * list event * list nat :=
+  match srv with
+  | [] => (w, sv, [], [])
+  | (j, sp) :: r =>
+      if sv_graceful sp then
+        let lg := if sv_stop_err sp then [j] else [] in   (* log.Printf("[ERROR] Stopping ...") *)
+        match take_serving i j sv with
+        | Some (root, sv1) =>
+            let '(w', sv', ev, l) := stop_servers_e i r (wg_done root w) sv1 in
+            (w', sv', EStop i j :: ERet i j :: ev, lg ++ l)
+        | None =>
+            let '(w', sv', ev, l) := stop_servers_e i r w sv in (w', sv', EStop i j :: ev, lg ++ l)
+        end
+      else stop_servers_e i r w sv
+  end.
+
+Definition stop_inst_e (o : inst) (s : state) : state * list event * list nat * bool :=
+  let '(w, sv, ev, lg) := stop_servers_e (i_id o) (i_srv o) (wg s) (serving s) in
+  (mkSt (remove_id (i_id o) (insts s)) (known s) (next s) w sv (once s), ev, lg,
+   false (* return nil *)).
+
+(* Instance.Restart with  err = i.Stop(); if err != nil { return i, err }  written out *)
+Definition restart_body_e (o : inst) (c : config) (s : state) : state * list event * result :=
+  let h := i_id o in
+  let failed := run_all KRestartFailed h (c_rfailed (i_cfg o)) in
+  let '(e1, ok1) := run_stop KRestart h (c_restart (i_cfg o)) in
+  if negb ok1 then (s, e1 ++ failed, RInst false h) else
+  let i := next s in
+  let '(e2, ok2, saved) := start_plan c i true (i_srv o) h in
+  if negb ok2 then (set_next s (next_after c i), e1 ++ e2 ++ failed, RInst false h) else
+  let s1 := commit (mkInst i (i_root o) c saved) (next_after c i) s in
+  let '(s2, e3, _, stop_failed) := stop_inst_e o s1 in
+  if stop_failed then (s2, e1 ++ e2 ++ e3 ++ failed, RInst false h) else
+  let e4 := run_all KShutdown h (c_shutdown (i_cfg o)) in
+  (s2, e1 ++ e2 ++ e3 ++ e4 ++ [EHook HInstanceStartup i], RInst true i).
+
+(* ------------------------------------------------------------------ shutdown against concurrent Stop *)
+(* allShutdownCallbacks against concurrent Instance.Stop: the package-level slice [instances] is
+   a backing array and a length; Stop's  instances = append(instances[:j], instances[j+1:]...)
+   shifts the tail of the SAME array one place to the left (the last cell keeps its old content)
+   and shortens the slice; the loop  for _, inst := range instances  evaluates the slice header
+   once (its length) and reads cell idx of the array at iteration idx. *)
+Record shm := mkShm {
+  sh_arr : list inst;      (* backing array *)
+  sh_len : nat;            (* len(instances) *)
+  sh_lock : bool;          (* instancesMu held by the signal handler *)
+  sh_n : option nat;       (* the handler's loop: Some n = range evaluated with length n *)
+  sh_idx : nat;            (* next iteration *)
+  sh_done : bool;          (* the loop has finished (and the lock is released) *)
+  sh_out : list event }.   (* what the handler's callbacks logged *)
+
+Definition live_of (m : shm) : list inst := firstn (sh_len m) (sh_arr m).
+
+Fixpoint index_of (h : nat) (l : list inst) : option nat :=
+  match l with
+  | [] => None
+  | o :: r => if i_id o =? h then Some 0 else match index_of h r with Some j => Some (S j) | None => None end
+  end.
+
+(* append(a[:j], a[j+1:len]...) in place *)
+Definition splice_at (j len : nat) (arr : list inst) : list inst :=
+  firstn j arr ++ skipn (S j) (firstn len arr) ++ skipn (len - 1) arr.
+
+Inductive cstep :=
+| CAcquire           (* allShutdownCallbacks: instancesMu.Lock(); the range expression is evaluated *)
+| CIter              (* one iteration: inst.ShutdownCallbacks() of the cell read now *)
+| CRelease           (* loop over: instancesMu.Unlock() *)
+| CSplice (h : nat). (* the tail of a concurrent Instance.Stop of instance h: Lock, splice, Unlock *)
+
+(* [wide] = the lock is held for the whole loop (the code as it is); [wide = false] is the
+   variant that copies the slice HEADER under the lock and iterates outside it *)
+Definition conc_step (wide : bool) (m : shm) (c : cstep) : option shm :=
+  match c with
+  | CAcquire =>
+      match sh_n m with
+      | None => if sh_lock m then None
+                else Some (mkShm (sh_arr m) (sh_len m) wide (Some (sh_len m)) 0 false (sh_out m))
+      | Some _ => None
+      end
+  | CIter =>
+      match sh_n m with
+      | Some n =>
+          if sh_idx m <? n then
+            match nth_error (sh_arr m) (sh_idx m) with
+            | Some x => Some (mkShm (sh_arr m) (sh_len m) (sh_lock m) (sh_n m) (S (sh_idx m)) false
+                                    (sh_out m ++ shutdown_cbs x))
+            | None => None
+            end
+          else None
+      | None => None
+      end
+  | CRelease =>
+      match sh_n m with
+      | Some n => if (sh_idx m =? n) && negb (sh_done m)
+                  then Some (mkShm (sh_arr m) (sh_len m) false (sh_n m) (sh_idx m) true (sh_out m))
+                  else None
+      | None => None
+      end
+  | CSplice h =>
+      if sh_lock m then None   (* blocks on instancesMu *)
+      else match index_of h (live_of m) with
+           | Some j => Some (mkShm (splice_at j (sh_len m) (sh_arr m)) (sh_len m - 1) false
+                                   (sh_n m) (sh_idx m) (sh_done m) (sh_out m))
+           | None => Some m
+           end
+  end.
+
+Fixpoint conc_run (wide : bool) (m : shm) (cs : list cstep) : option shm :=
+  match cs with
+  | [] => Some m
+  | c :: r => match conc_step wide m c with Some m' => conc_run wide m' r | None => None end
+  end.
+
+Definition conc_init (l : list inst) : shm := mkShm l (length l) false None 0 false [].
+
+Definition is_splice (c : cstep) : bool := match c with CSplice _ => true | _ => false end.
+
+
+(* the Stops of a list of handles one after the other: their events *)
+Fixpoint stops_events (s : state) (hs : list nat) : list event :=
+  match hs with
+  | [] => []
+  | h :: r => match find_inst h (known s) with
+              | Some x => let '(s', ev) := stop_inst x s in ev ++ stops_events s' r
+              | None => stops_events s r
+              end
+  end.
 
 Definition step (s : state) (o : op) : state * list event * result :=
   match o with
@@ -369,6 +525,7 @@ Definition res_eqb (a b : result) : bool :=
   | RNum n, RNum n' => n =? n'
   | RBool x, RBool y => Bool.eqb x y
   | RUnit, RUnit => true
+  | RPanic, RPanic => true
   | _, _ => false
   end.
 
@@ -569,6 +726,16 @@ Definition spec_record (all : list record) (r : record) : bool :=
                && negb (existsb (fun e => match e with EStop _ _ | ERet _ _ => true | _ => false end) ev)
       | _ => false
       end
+  (* a plugin's panic reaches the caller of casket.Start (never the caller of Restart, which
+     reports an error instead): only when the configuration has such a plugin, and the start
+     has got no further than a failed one *)
+  | OStart c, RPanic =>
+      c_setup_panic c &&
+      match new_ids ev with
+      | [n] => only_about [n] ev && spec_creation c n true false ev
+               && negb (existsb (fun e => match e with ECb _ _ _ | EListen _ _ _ | EStop _ _ | ERet _ _ => true | _ => false end) ev)
+      | _ => false
+      end
   | ORestart h c, RInst ok n0 =>
       match cfg_of h all with
       | None => false
@@ -759,7 +926,13 @@ Inductive case :=
   (* a child process ran the history (observed [recs]), trapped signals, received [sigs]
      (the 2nd.. while the first shutdown callback was held if [gated]); [tail] are the events
      logged after the first signal, [code] the exit status *)
-| CChild (recs : list record) (sigs : list sig) (gated : bool) (tail : list event) (code : nat).
+| CChild (recs : list record) (sigs : list sig) (gated : bool) (tail : list event) (code : nat)
+  (* after the history [recs], executeShutdownCallbacks ran while Instance.Stop of every handle
+     in [stops] was called from other goroutines DURING the first shutdown callback (which was
+     held until those Stops had returned or were seen blocked); [ev] = everything logged from
+     the call until all of it had returned, [code] the exit status, [after] casket.Instances()
+     at the end *)
+| CConc (recs : list record) (stops : list nat) (ev : list event) (code : nat) (after : list nat).
 
 Definition judge (c : case) : N :=
   match c with
@@ -790,5 +963,31 @@ Definition judge (c : case) : N :=
             && (if one_sig then code =? (if k =? 0 then 0 else 4) else true)
         | None => false
         end in
+      verdict agree spec
+  | CConc recs stops ev code after =>
+      let ops := map rec_op recs in
+      let s := final init ops in
+      let cbs := filter is_cb_or_hook ev in
+      let others := filter (fun e => negb (is_cb_or_hook e)) ev in
+      (* the schedule the harness forces, as far as the lock lets it: the Stops come while the
+         first callback runs — they block until the handler has released the lock *)
+      let sched := CAcquire :: repeat CIter (length (insts s)) ++ CRelease :: map CSplice stops in
+      let agree :=
+        recs_agree (run init ops) recs &&
+        match conc_run true (conc_init (insts s)) sched with
+        | Some m => list_beq ev_eqb cbs (EHook HShutdown 0 :: sh_out m)
+                    && nat_list_eqb after (map i_id (live_of m))
+        | None => false
+        end &&
+        same_multiset others (stops_events s stops) &&
+        (code =? (if all_errs (insts s) =? 0 then 0 else 4)) in
+      let spec :=
+        spec_hist recs &&
+        match exec_expected recs (live_after [] recs) with
+        | Some (exp, k) => list_beq ev_eqb cbs (EHook HShutdown 0 :: exp)
+                           && (code =? (if k =? 0 then 0 else 4))
+        | None => false
+        end
+        && nat_list_eqb after (filter (fun i => negb (existsb (Nat.eqb i) stops)) (live_after [] recs)) in
       verdict agree spec
   end.
